@@ -328,10 +328,27 @@ def run(rep: common.Report, tier: str, seed: int, replay=None) -> int:
             cimpl.append(1)
         except ValueError:
             cimpl.append(0)
+    # where the time-dependent currents are sampled: Model.Validate.sample_tmax (= max(solve_time, skip_time)); the observed
+    # sample times must lie in [0, tmax] and reach its upper part (100 uniform samples: max > 0.8 tmax except with p = 2e-10)
+    samp_cases, samp_obs = [], []
+    for solve_t, skip_t in ((0.3, 0.0), (0.2, 1.0), (1.0, 0.2), (0.5, 0.5), (1e-3, 40.0), (7.0, 1e-2)):
+        seen_t = []
+
+        def rec_cur(t_, seen_t=seen_t):
+            seen_t.append(float(t_))
+            return {"t0": 1.0, "t1": -1.0}
+        validate_terminal_currents(rec_cur, [SimpleNamespace(name="t0"), SimpleNamespace(name="t1")],
+                                   SimpleNamespace(solve_time=solve_t, skip_time=skip_t))
+        samp_cases.append((solve_t, skip_t))
+        samp_obs.append((min(seen_t), max(seen_t), len(seen_t)))
+    samp_lits = [f"({q(Fraction(a))}, {q(Fraction(b))}, {q(Fraction(lo))}, {q(Fraction(hi))})" for (a, b), (lo, hi, _) in zip(samp_cases, samp_obs)]
     t = ("From Coq Require Import List QArith ZArith Bool.\nImport ListNotations.\nFrom PyTdgl Require Import Model.Validate.\n"
          f"Eval vm_compute in map (fun o => if validate_ok o then 1%Z else 0%Z) {coq_list(lits, per_line=1)}.\n"
          f"Eval vm_compute in map (fun c => if accepts_currents c then 1%Z else 0%Z) "
          f"{coq_list([coq_list([q(x) for x in v], per_line=6) for v in cur_cases], per_line=1)}.\n")
+    t += ("Eval vm_compute in map (fun '(a, b, lo, hi) => let m := sample_tmax true a b in\n"
+          "  (if Qle_bool 0 lo then 1%Z else 0%Z, if Qle_bool hi m then 1%Z else 0%Z, if Qle_bool ((8#10) * m) hi then 1%Z else 0%Z)) "
+          f"{coq_list(samp_lits, per_line=1)}.\n")
     rc, out = common.run_model("c19_validate", t)
     ndis = 0
     if rc != 0:
@@ -344,6 +361,14 @@ def run(rep: common.Report, tier: str, seed: int, replay=None) -> int:
                 if ndis < 8:
                     rep.not_shown("correspondence: SolverOptions.validate differs from Model.Validate.validate_ok",
                                   {"options": [str(x) for x in c], "model_accepts": a, "impl_accepts": b})
+        ms = common.parse_nested(common.eval_block(out, 2))[0]
+        for (solve_t, skip_t), (lo, hi, cnt), flags in zip(samp_cases, samp_obs, ms):
+            if [int(x) for x in flags] != [1, 1, 1]:
+                ndis += 1
+                rep.not_shown("correspondence: the times at which time-dependent currents are validated are not spread over "
+                              "[0, Model.Validate.sample_tmax] = [0, max(solve_time, skip_time)]",
+                              {"solve_time": solve_t, "skip_time": skip_t, "min_sample": lo, "max_sample": hi, "samples": cnt,
+                               "model_flags(0<=lo, hi<=tmax, 0.8tmax<=hi)": [int(x) for x in flags]})
         mc = [int(x) for x in common.parse_nested(common.eval_block(out, 1))[0]]
         for v, a, b in zip(cur_cases, mc, cimpl):
             # rounding of the float sum may differ from the exact sum only below 1e-12 relative
